@@ -489,6 +489,36 @@ type hookStore struct {
 	mu      stdsync.Mutex
 	afterBloomFetch func()
 	fired   int
+	// inTxn, if armed, runs once at the start of the next write transaction (Write / Update) of
+	// the node - i.e. after the operation was entered and before anything of it is committed -
+	// on the writer's own goroutine.
+	inTxn      func()
+	inTxnFired int
+}
+
+func (h *hookStore) takeInTxn() func() {
+	h.mu.Lock()
+	defer h.mu.Unlock()
+	f := h.inTxn
+	h.inTxn = nil
+	if f != nil {
+		h.inTxnFired++
+	}
+	return f
+}
+
+func (h *hookStore) Write(fn func(db.Batch) error) error {
+	if f := h.takeInTxn(); f != nil {
+		f()
+	}
+	return h.KeyValueStore.Write(fn)
+}
+
+func (h *hookStore) Update(fn func(db.IndexedBatch) error) error {
+	if f := h.takeInTxn(); f != nil {
+		f()
+	}
+	return h.KeyValueStore.Update(fn)
 }
 
 func (h *hookStore) Get(key []byte, cb func([]byte) error) error {
@@ -568,6 +598,80 @@ func (s *longSim) fetchOvertakenByReorg(hs *hookStore, bnd uint64) {
 	}
 }
 
+// queryInsideRevert: the head is the last block of a completed (persisted) bloom window. It is
+// reverted, and an event query over that window runs after RevertHead was entered and before its
+// database transaction commits (the query runs on the reverting goroutine, at the start of the
+// transaction: no lock of the node is held there). It may load and cache the window as it still
+// is on disk. Then the chain regrows on another fork across the boundary; afterwards, on the
+// quiescent node, every query must see the replacement blocks' events.
+func (s *longSim) queryInsideRevert(hs *hookStore, bnd uint64) {
+	if s.e.t.head() < bnd-1 {
+		return
+	}
+	t := s.e.t
+	s.revertTo(bnd - 1)
+	if s.dead {
+		return
+	}
+	if s.rng.IntN(2) == 0 {
+		s.restart(false) // fresh process: nothing cached
+		if s.dead {
+			return
+		}
+	}
+	if ef, err := s.node.BC.EventFilter(nil, nil, noPre); err == nil {
+		_ = ef.SetRangeEndBlockByNumber(blockchain.EventFilterFrom, t.head())
+		_ = ef.SetRangeEndBlockByNumber(blockchain.EventFilterTo, t.head())
+		_, _, _ = ef.Events(nil, 10)
+		ef.Close()
+	}
+	t.note("directed: head %d is the last block of window [%d,%d]; while it is being reverted (transaction open) a query loads that window", bnd-1, bnd-window, bnd-1)
+	addr := longAddrs[s.rng.IntN(len(longAddrs))]
+	hs.mu.Lock()
+	before := hs.inTxnFired
+	hs.inTxn = func() {
+		ef, err := s.node.BC.EventFilter([]felt.Address{felt.Address(addr)}, nil, noPre)
+		if err != nil {
+			return
+		}
+		defer ef.Close()
+		_ = ef.SetRangeEndBlockByNumber(blockchain.EventFilterFrom, bnd-40)
+		_ = ef.SetRangeEndBlockByNumber(blockchain.EventFilterTo, bnd-1)
+		var tok *blockchain.ContinuationToken
+		for p := 0; p < 200; p++ {
+			_, next, err := ef.Events(tok, 50)
+			if err != nil || next.IsEmpty() {
+				break
+			}
+			tok = &next
+		}
+	}
+	hs.mu.Unlock()
+	// mostly the reorg's LAST revert is the one that reopens the window (fork point bnd-2): a later
+	// revert would be another chance for the node to drop whatever the query cached
+	deeper := uint64(0)
+	if s.rng.IntN(3) == 0 {
+		deeper = 1 + uint64(s.rng.IntN(3))
+	}
+	s.revertTo(bnd - 2 - deeper)
+	hs.mu.Lock()
+	hs.inTxn = nil
+	fired := hs.inTxnFired > before
+	hs.mu.Unlock()
+	if fired {
+		s.r.Count("long_directed_query_inside_the_revert_of_a_window's_last_block", 1)
+		t.cachedAt[(bnd-1)/window] = t.tick()
+	} else {
+		s.r.Count("long_directed_query_inside_revert_not_reached", 1)
+	}
+	if !s.dead {
+		s.regrow(bnd + 1 + uint64(s.rng.IntN(8)))
+	}
+	if !s.dead {
+		s.queries(6)
+	}
+}
+
 func longCase(r *lib.Run, idx int) {
 	rng := lib.Rng("C09/long", uint64(idx))
 	s := &longSim{r: r, idx: idx, rng: rng, k: 1}
@@ -627,6 +731,10 @@ func longCase(r *lib.Run, idx int) {
 	r.Count("long_blocks_built", int(base)+1)
 	if !r.Race || idx == 0 {
 		s.fetchOvertakenByReorg(hs, window*s.k)
+		if s.dead {
+			return
+		}
+		s.queryInsideRevert(hs, window*s.k)
 		if s.dead {
 			return
 		}
